@@ -165,7 +165,9 @@ pub fn edit_atoms(atoms: &mut Vec<Atom>, edits: &[(u8, u16, u16)], ch: &mut Choo
     }
 }
 
-pub const SOUP_CHARS: [&str; 44] = [
+pub const SOUP_CHARS: [&str; 48] = [
+    // look-alikes that are NOT whitespace for char::is_whitespace: must be rejected
+    "\u{200B}", "\u{FEFF}", "\u{001C}", "\u{180E}",
     "$", "_", "a", "Z", "9", ":", "::", "/", "//", "#", "#[", "[", "]", "(", ")", "{", "}", "<", ">", ",", "\"", "@", "!", " ", "\n", "\r", "\t", "é",
     "€", "𝄞", "\u{00A0}", "\u{2028}", "start", "struct", "enum", "terminal", "$start", "$_", "x", "Foo", "$Bar", "0", ";", "-",
 ];
